@@ -27,25 +27,37 @@ import evalstream as es
 
 PID = "C01"
 MANIFEST = {
-    "text": "12 Coq theorems over the evaluator model (explicit Panic outcome for every partial Rust operation on a "
+    "text": "26 Coq theorems over the evaluator model (explicit Panic outcome for every partial Rust operation on a "
             "modelled path): evaluation at any call-depth budget from any configuration whose innermost frame is Owned "
             "never returns Panic and keeps that invariant — for every operator/built-in implementation that does not "
             "panic itself; hypotheses discharged for the transcribed operators (26 ops x 3 broadcasting arms: no "
             "list[idx] out of range, no unreachable!() arm reached), the built-ins wired into the model (arity check "
             "precedes every args[i]; arities regenerated from the built crate) and the factorial, for BOTH overflow "
-            "semantics; whole programs (statement loop) never panic; the 24 list/string/record arms of BuiltinsList.v "
-            "never panic after the arity check (callback ones under a panic-free callback, text ones for every oracle).  "
-            "PARTIAL: 29 of 72 built-ins have no transcribed arm (C01_builtin_call_no_panic_full kept as a Definition); "
+            "semantics; whole programs (statement loop) never panic.  COMPLETE BUILT-IN SET (coq/EvalAll.v): a dispatcher "
+            "with an arm for every row of the regenerated table (69) and `^`, library behaviour (libm x 9, powf, Unicode "
+            "trim/upper/lower, lambda text, the std functions under the number display, the clock) as fields of an ORACLE "
+            "record; for EVERY oracle: C01_builtin_call_no_panic_all — after the arity check no arm panics (every args[i], "
+            "`&args[1..]`, dyn-fmt's state machine incl. its unreachable_unchecked() arm) under three named side conditions "
+            "that are each necessary in the model (percentile: p a genuine double and <= 2^53 elements; format: the display "
+            "of the numbers does not overflow its i32/i64 arithmetic, proved for every valid double when floor(log10) is "
+            "within +-2000; time_now: clock not before 1970 — an OPEN finding, reproduced on the real binary); "
+            "C01_eval_never_unmodelled_all / C01_program_never_unmodelled_all — no evaluation, call or program is "
+            "Unmodelled any more (the evaluator induction replayed for that outcome).  C01_builtin_call_no_panic_full "
+            "(stated over EvalInst.builtin_impl, which answers Unmodelled for 50 built-ins) stays a Definition; its content "
+            "is the _all theorem.  NOT proved: an evaluator-level `never Panic` for the complete dispatcher (it would need "
+            "`every number is a valid binary64` as an evaluator invariant because of the percentile / format conditions); "
             "parser, formatter, printer, JSON and error-rendering stages and all error spans are library/string code "
             "decided by SEARCH: per-stage catch_unwind harness on release+debug builds and exit status of the real "
             "binary over grammar-generated (nesting <= 64), corpus-mutated, raw UTF-8, every built-in x boundary-pool "
             "tuples (arity -1..+2), JSON inputs incl. __blots_function objects, unit identifiers; crashes classified by "
             "(stage, file, message class); 7 crash/hang classes found on the original tree, all fixed in /repo now and "
-            "kept as regression inputs",
+            "kept as regression inputs; 1 open (time_now with the clock before the epoch)",
     "note": "trusted: Coq kernel + vm_compute; transcription of evaluate_ast / FunctionDef::call / evaluate_binary_op_ast "
-            "(validated by the EVAL correspondence in both overflow semantics); the search half is testing, not proof; "
-            "resource exhaustion (allocation failure under a 12 GiB address-space cap, stack overflow beyond nesting 64) "
-            "is counted and excluded",
+            "and of every built-in arm (validated by the EVAL correspondence in both overflow semantics and by the ALL "
+            "correspondence: model with oracle tables dumped by the harness vs implementation, plus the real binary's "
+            "stderr for print); the args_ok form of the percentile condition uses the standard library's real-number axioms "
+            "(C15's index bound), the *_axiom_free form none; the search half is testing, not proof; resource exhaustion "
+            "(allocation failure under a 12 GiB address-space cap, stack overflow beyond nesting 64) is counted and excluded",
     "category": "proof",
     "design_ref": "DESIGN.md section 6 C01; notes/C01.md",
 }
@@ -163,7 +175,38 @@ def _known_class(ev, case, build):
         return "reloaded-function-span"
     if typ == "TIMEOUT" and (ev["stage"].startswith("format_expr") or ev["stage"] in ("reparse_formatted", "join_statements_with_spacing")):
         return "formatter-exponential"
+    if typ == "PANIC" and f == "blots-core/functions.rs" and "SystemTimeError" in ev["raw"] and re.search(r"\btime_now\b", t):
+        return "time-now-before-epoch"   # only with the system clock before 1970 (never in the streams)
     return None
+
+
+def clock_before_epoch_witness(cli, src):
+    """Known finding C01-time-now-clock-before-epoch: run the real binary with CLOCK_REALTIME reading -1000 s
+    (LD_PRELOAD of checks/c01_clock_shim.c).  -> (reproduces?, note)"""
+    import subprocess
+    import tempfile
+    shim_c = os.path.join(os.path.dirname(os.path.abspath(__file__)), "c01_clock_shim.c")
+    tmp = tempfile.mkdtemp(prefix="c01clock_")
+    try:
+        so = os.path.join(tmp, "shim.so")
+        try:
+            p = subprocess.run(["cc", "-shared", "-fPIC", "-o", so, shim_c], capture_output=True, timeout=120)
+        except (OSError, subprocess.TimeoutExpired):
+            return False, "not re-run: no C compiler for the clock shim"
+        if p.returncode != 0:
+            return False, "not re-run: the clock shim did not compile"
+        path = os.path.join(tmp, "t.blots")
+        with open(path, "w") as f:
+            f.write(src + "\n")
+        env = dict(os.environ)
+        env["LD_PRELOAD"] = so
+        env["RUST_BACKTRACE"] = "0"
+        q = subprocess.run([cli, path], stdin=subprocess.DEVNULL, capture_output=True, timeout=60, env=env)
+        hit = q.returncode == 101 and b"SystemTimeError" in q.stderr
+        return hit, "no longer reproduces"
+    finally:
+        import shutil
+        shutil.rmtree(tmp, ignore_errors=True)
 
 
 def out_of_scope(ev, case):
@@ -298,7 +341,7 @@ def main(argv):
 
     # ---------------- proof obligations
     tp = time.time()
-    c.proof_step(res, PID, extra_targets=["EvalInst.vo"])
+    c.proof_step(res, PID, extra_targets=["EvalInst.vo", "AllRun.vo"])
     c.log("proof step %.1fs" % (time.time() - tp))
 
     tally = Tally()
@@ -501,6 +544,10 @@ def main(argv):
         corr = correspondence(h, hd, rng, quick, res)
         streams.update(corr)
         c.log("correspondence %.1fs" % (time.time() - tp))
+        # the complete built-in set (coq/EvalAll.v, oracle tables from the harness): its own generator state
+        tp = time.time()
+        streams["ALL"] = es.run_all_stream(h, c.Rng(seed + 0x0A11), quick, res, cli=cli_r, tag="c01all")
+        c.log("ALL correspondence %.1fs" % (time.time() - tp))
     except c.BrokenTie as e:
         res.tie_broken(e.what, e.detail)
 
@@ -574,6 +621,10 @@ def main(argv):
     # ---------------- known findings: re-run every witness
     for e in c.open_known(PID):
         wit = e.get("witness") or {}
+        if wit.get("kind") == "ENV-CLOCK":
+            hit, why = clock_before_epoch_witness(clis[wit.get("build", "release")], wit.get("src", "time_now()"))
+            res.known("%s %s%s" % (e["id"], e["what"], "" if hit else " (%s)" % why))
+            continue
         case = {"kind": wit.get("kind", "E"), "src": wit.get("src", ""), "inputs": wit.get("inputs")}
         build = wit.get("build", "release")
         if wit.get("stage_timeout"):
